@@ -22,6 +22,7 @@ struct St {
     // --- per build
     building: bool,
     controlled: bool,
+    single: bool,
     plan: Plan,
     exp: Option<Expanded>,
     workers: usize,
@@ -220,6 +221,11 @@ impl Handler for H {
                 if n == 0 {
                     st.controlled = false;
                     st.taint.push("no-worker-threads".into());
+                } else if n == 1 {
+                    // one worker: there is nothing to schedule (documents arrive in feeding order);
+                    // do not park it ~2000 times per build for nothing
+                    st.controlled = false;
+                    st.single = true;
                 } else {
                     let exp = expand(&st.plan, n, self.expected_docs);
                     if !exp.distinct && n > 1 {
@@ -471,6 +477,7 @@ fn open_db(h: &Arc<H>, slot: usize, mode: Mode, plan: &Plan) -> (Option<anything
         let mut st = h.st.lock().unwrap();
         st.building = true;
         st.controlled = false;
+        st.single = false;
         st.plan = plan.clone();
         st.exp = None;
         st.workers = 0;
@@ -498,6 +505,10 @@ fn open_db(h: &Arc<H>, slot: usize, mode: Mode, plan: &Plan) -> (Option<anything
             switches += 1;
         }
     }
+    if st.single {
+        st.sizes = vec![st.docs];
+        st.assign = vec![0; st.docs];
+    }
     let bytes: Vec<u8> = st.assign.iter().map(|w| *w as u8).collect();
     let info = BuildInfo {
         slot,
@@ -512,7 +523,7 @@ fn open_db(h: &Arc<H>, slot: usize, mode: Mode, plan: &Plan) -> (Option<anything
         sizes: st.sizes.clone(),
         assign_hash: format!("{:016x}", fnv1a(&bytes)),
         switches,
-        controlled: st.rebuilt && st.workers > 0 && !st.taint.iter().any(|t| t.starts_with("watchdog") || t == "no-worker-threads" || t == "park-timeout" || t.starts_with("empty-document")),
+        controlled: (st.single || st.rebuilt && st.workers > 0) && !st.taint.iter().any(|t| t.starts_with("watchdog") || t == "no-worker-threads" || t == "park-timeout" || t.starts_with("empty-document")),
         taint: st.taint.clone(),
         points: st.points.clone(),
     };
@@ -612,7 +623,7 @@ fn own_words(db: &anything::Db, s: &shipped::Shipped, perms: Perms, only: &Optio
     }
 }
 
-fn interleave(h: &Arc<H>, db: &anything::Db, iso: &anything::Db, queries: &[QuerySpec], acts: &[Act], slot: usize) -> Event {
+fn interleave(h: &Arc<H>, db: &anything::Db, iso: Option<&anything::Db>, iso_fresh: Option<Mode>, queries: &[QuerySpec], acts: &[Act], slot: usize) -> Event {
     struct Q<'a, P: 'static> {
         it: Option<anything::Query<'a>>,
         descs: *mut Vec<anything::Description>,
@@ -693,6 +704,7 @@ fn interleave(h: &Arc<H>, db: &anything::Db, iso: &anything::Db, queries: &[Quer
         max_open = max_open.max(qs.iter().filter(|q| q.it.is_some()).count());
     }
     let mut out = Vec::new();
+    let mut iso_cache: HashMap<(String, bool), (Vec<Res>, Vec<Desc>)> = HashMap::new();
     for (i, mut q) in qs.into_iter().enumerate() {
         q.it = None;
         // SAFETY: the query borrowing the vector has been dropped
@@ -704,8 +716,28 @@ fn interleave(h: &Arc<H>, db: &anything::Db, iso: &anything::Db, queries: &[Quer
             })
             .collect();
         let spec = &queries[i];
-        let (iso_results, iso_descs) = eval_alone(iso, &spec.text, spec.describe, false);
-        let (iso_flip_results, _) = eval_alone(iso, &spec.text, !spec.describe, false);
+        let mut alone = |describe: bool| -> (Vec<Res>, Vec<Desc>) {
+            let key = (spec.text.clone(), describe);
+            if let Some(r) = iso_cache.get(&key) {
+                return r.clone();
+            }
+            let r = match (iso_fresh, iso) {
+                (Some(mode), _) => {
+                    // a handle of its own, used for this one evaluation only
+                    let (fresh, _info) = open_db(h, usize::MAX, mode, &Plan::default());
+                    match fresh {
+                        Some(f) => eval_alone(&f, &spec.text, describe, false),
+                        None => (vec![Res::Err { msg: "isolation database could not be opened".into(), start: 0, end: 0 }], vec![]),
+                    }
+                }
+                (None, Some(iso)) => eval_alone(iso, &spec.text, describe, false),
+                (None, None) => (vec![], vec![]),
+            };
+            iso_cache.insert(key, r.clone());
+            r
+        };
+        let (iso_results, iso_descs) = alone(spec.describe);
+        let (iso_flip_results, _) = alone(!spec.describe);
         let mut results = q.results;
         if let Some(e) = q.parse_error {
             results = vec![Res::Err { msg: e, start: 0, end: 0 }];
@@ -811,9 +843,13 @@ fn main() {
                 let ev = own_words(db, shipped_cache.as_ref().unwrap(), *perms, only, *slot);
                 emit(&h.log, &ev);
             }
-            Op::Interleave { slot, queries, acts, iso_slot } => {
-                let (Some(Some(db)), Some(Some(iso))) = (slots.get(*slot), slots.get(*iso_slot)) else { continue };
-                let ev = interleave(&h, db, iso, queries, acts, *slot);
+            Op::Interleave { slot, queries, acts, iso_slot, iso_fresh } => {
+                let Some(Some(db)) = slots.get(*slot) else { continue };
+                let iso = slots.get(*iso_slot).and_then(|s| s.as_ref());
+                if iso.is_none() && iso_fresh.is_none() {
+                    continue;
+                }
+                let ev = interleave(&h, db, iso, *iso_fresh, queries, acts, *slot);
                 emit(&h.log, &ev);
             }
             Op::Drop { slot } => {
